@@ -711,7 +711,11 @@ where
 }
 
 fn trim_end_unescaped(s: &str) -> &str {
-    let trimmed = s.trim_end_matches(matches_whitespace);
+    // Only the characters that separate a regex from its name (space and tab) are layout here.
+    let trimmed = s.trim_end_matches(|ch: char| {
+        let mut cbuf = [0; 4];
+        RE_SPACE_SEP.is_match(ch.encode_utf8(&mut cbuf))
+    });
     if trimmed.len() == s.len() {
         return s;
     }
